@@ -40,6 +40,21 @@ def run(ctx):
         ctx.count('corpus')
         replay(ctx, rec)
     batch = []
+
+    def chain_witness(name, lib, k, t, ab, ba, a, b):
+        ra, rb = S.impl_descriptors(lib, a), S.impl_descriptors(lib, b)
+        check_pair(ctx, name, lib, [a, b], [ra, rb], batch)
+        check_pair(ctx, name, lib, [b, a], [rb, ra], batch)
+    S.chain_free_hypothesis(ctx, libs_, chain_witness)
+    # parts whose atoms lie beyond index 256 in the mixture (see c03.high_index_spellings)
+    for name, lib in libs_:
+        if name in ('BensonGA', 'GRWSurface2018'):
+            big = 'C' * 262
+            for small in ('C/C=C(/C)CC', 'C/C=C\\C', 'C1CC1C', 'CC(C)(C)C(C)(C)C', 'COCOC'):
+                rs = [S.impl_descriptors(lib, big), S.impl_descriptors(lib, small)]
+                ctx.count('high_index_mixtures')
+                check_pair(ctx, name, lib, [big, small], rs, batch)
+                check_pair(ctx, name, lib, [small, big], rs[::-1], batch)
     full = S.FullTie(ctx, max_cases=ctx.n(160, 2000))      # per library
     pipe = P.PipeTie(ctx, max_cases=ctx.n(45, 500))        # per library: the composed pipeline (decompose, then estimate)
     pipe.mixtures = collections.Counter()
